@@ -35,6 +35,7 @@ package util
 //gvc:  theory bv
 //gvc:  results size err
 //gvc:  opt nomerge
+//gvc:  modifies reader.#pos
 //gvc:  loop 1 unroll 10
 //gvc:  let p0 = reader.#pos
 //gvc:  ensures single: first & 0x80 == 0 ==> err == nil && size == first & 0x0f && reader.#pos == p0
@@ -49,4 +50,17 @@ package util
 //gvc:  props C09
 //gvc:  theory bv
 //gvc:  ensures bits: result == (b >> 4) & 7
+//gvc:end
+
+//gvc:func DecodeLEB128FromReader
+//gvc:  props C06 C53
+//gvc:  theory bv
+//gvc:  opt nomerge
+//gvc:  results v err
+//gvc:  modifies input.#pos
+//gvc:  loop 1 unroll 10
+//gvc:  let p0 = input.#pos
+//gvc:  ensures consumed: err == nil ==> 1 <= input.#pos - p0 && input.#pos - p0 <= 9
+//gvc:  ensures value: err == nil ==> v == spec_leb_value(input.#data, p0, input.#pos - p0)
+//gvc:  ensures last: err == nil ==> input.#data[input.#pos - 1] & 0x80 == 0
 //gvc:end
